@@ -360,6 +360,14 @@ class EdgeQLSourceGenerator(codegen.SourceGenerator):
                 qlast.Query,
             ),
         )
+        if (
+            isinstance(iterator, qlast.Constant)
+            and iterator.kind != qlast.ConstantKind.STRING
+            and iterator.value.startswith('-')
+        ):
+            # the parser folds the sign into numeric constants, but a
+            # signed number is not an atomic expression
+            bare_iterator = False
         if not bare_iterator:
             self.write('(')
         self.visit(iterator)
